@@ -136,6 +136,26 @@ def specStep (sh : Shadow) (o : Proto.Op) : Except String Shadow := do
     | ["plugin", "post"] =>
       pure { sh with period := .enabled,
                      live := sh.live.map (fun r => if r.period == .checking then { r with period := .enabled } else r) }
+    | ["plugin", "final", n] => do
+      -- the final report is about the blocks allocated while the detector was enabled and not released: "" exactly when
+      -- their number is the announced one, otherwise total, entries and the no-leaks answer must agree with that set
+      let want := sortStr ((sh.live.filter (inPeriod "enabled")).map leakKey)
+      if obs.any (· == ["final", "empty"]) then
+        if some want.length != n.toNat? then throw s!"FinalReport({n}) is empty but {want.length} blocks are outstanding"
+      else
+        if some want.length == n.toNat? then throw s!"FinalReport({n}) reports although exactly {n} blocks are outstanding"
+        match obs.find? (fun l => l.head? == some "report") with
+        | some ["report", "none"] =>
+          if !want.isEmpty then throw s!"FinalReport({n}) says no leaks but {want.length} blocks are outstanding"
+        | some ["report", "truncated", k] =>
+          if k.toNat? != some want.length then throw s!"FinalReport({n}) states a total of {k}, outstanding: {want.length}"
+        | some ["report", "total", k, _] =>
+          if k.toNat? != some want.length then throw s!"FinalReport({n}) states a total of {k}, outstanding: {want.length}"
+          let got := sortStr ((obs.filter (fun l => l.head? == some "leak")).map (fun l => " ".intercalate l))
+          if got != want then
+            throw s!"FinalReport({n}) entries differ from the outstanding blocks: missing {(want.filter (fun w => !got.contains w)).take 2} unexpected {(got.filter (fun g => !want.contains g)).take 2}"
+        | _ => throw s!"FinalReport({n}) not understood"
+      pure sh
     | ["plugin", "ignore"] => pure sh
     | ["plugin", "expect", _] => pure sh
     | ["setcur", "new", ai] => pure { sh with curNew := ai.toNat?.getD 0 }
